@@ -212,8 +212,8 @@ fn judge_hwd_inner(ctx: &mut Ctx, layer: &'static Layer, depth: u8, lon: f64, la
 }
 
 fn rejections(ctx: &mut Ctx, layer: &'static Layer, depth: u8) {
-  let nh = n_hash(depth);
-  for &bad in [nh, nh + 1, nh * 2, u64::MAX, u64::MAX / 2].iter() {
+  let mut rng = Rng::new(ctx.seed, 31_000 + depth as u64);
+  for &bad in bad_cell_numbers(&mut rng, depth).iter() {
     let mut chk = |name: &str, r: bool| { ctx.eval(); if r { ctx.violation(&format!("{}-accepts-cell-number>=n_hash", name), Case::new("bad").u("depth", depth as u64).u("h", bad).s("fn", name), String::new()); } else { ctx.bump("rejections-observed"); ctx.hard("rejected-cell-number", &[depth as u64, bad, name.len() as u64]); } };
     chk("center", catch(|| layer.center(bad)).is_ok());
     chk("vertices", catch(|| layer.vertices(bad)).is_ok());
